@@ -81,7 +81,51 @@ impl<'t, 'a> IoGen<'t, 'a> {
             if self.io_budget <= 0 {
                 break;
             }
-            match self.t.weighted(&[60, 10, if depth > 0 { 10 } else { 0 }, if depth > 0 { 8 } else { 0 }, 7, 5]) {
+            match self.t.weighted(&[60, 10, if depth > 0 { 10 } else { 0 }, if depth > 0 { 8 } else { 0 }, 7, 5, if depth > 0 { 9 } else { 0 }, 4]) {
+                6 => {
+                    // the talking function in a loop header: it talks once per evaluation of the header, no more, no
+                    // less, however the loop is left (header false, break on some pass, break inside a branch)
+                    self.io_budget -= 4;
+                    let c = names::FALLBACK[(depth + 3) % names::FALLBACK.len()];
+                    let c = simple(&format!("{}pass", c));
+                    s.push(put(num(0.0), &c));
+                    let v = self.v();
+                    let call = Expr::Primary(Primary::Call(self.func.clone(), vec![var(&c)]));
+                    // what was heard decides: an empty line (or the end of input) ends an `until … is ""`-less loop
+                    let cond = match self.t.pick(3) {
+                        0 => bin(BinOp::NotEq, call, strlit("")),
+                        1 => bin(BinOp::And, bin(BinOp::Less, var(&c), num(3.0)), bin(BinOp::NotEq, call, strlit("stop"))),
+                        _ => bin(BinOp::Less, bin(BinOp::Plus, call, strlit("")), strlit("zzzzzzzz")),
+                    };
+                    let mut body = vec![Stmt::Inc { dest: Ident::Name(c.clone()), amount: 1 }, say(bin(BinOp::Plus, strlit("pass "), var(&c)))];
+                    let leave_at = 1 + self.t.pick(3);
+                    match self.t.pick(4) {
+                        0 => body.push(Stmt::Break),
+                        1 => body.push(Stmt::If { cond: bin(BinOp::GreaterEq, var(&c), num(leave_at as f64)), then: vec![Stmt::Break], els: None }),
+                        2 => {
+                            body.push(Stmt::If { cond: bin(BinOp::Less, var(&c), num(leave_at as f64)), then: vec![Stmt::Continue], els: None });
+                            body.push(say(strlit("last pass")));
+                            body.push(Stmt::Break);
+                        }
+                        _ => body.push(Stmt::If { cond: bin(BinOp::GreaterEq, var(&c), num(3.0)), then: vec![Stmt::Break], els: None }),
+                    }
+                    s.push(Stmt::While { cond, body });
+                    // whatever comes next must find the input where the loop left it
+                    s.push(Stmt::Input { dest: Some(Lhs::Ident(Ident::Name(v.clone()))) });
+                    s.push(say(bin(BinOp::Plus, strlit("after loop:"), var(&v))));
+                }
+                7 => {
+                    // the talking function as an operand of a say, as an argument of itself, in a branch condition
+                    self.io_budget -= 3;
+                    let v = self.v();
+                    let call = |a: Expr, f: &Name| Expr::Primary(Primary::Call(f.clone(), vec![a]));
+                    let f = self.func.clone();
+                    match self.t.pick(3) {
+                        0 => s.push(say(bin(BinOp::Plus, call(strlit("a"), &f), call(strlit("b"), &f)))),
+                        1 => s.push(say(call(call(strlit("inner"), &f), &f))),
+                        _ => s.push(Stmt::If { cond: bin(BinOp::Eq, call(var(&v), &f), strlit("")), then: vec![say(strlit("blank"))], els: Some(vec![say(strlit("not blank"))]) }),
+                    }
+                }
                 0 => s.push(self.io_stmt()),
                 1 => {
                     // other statements in between
@@ -196,6 +240,18 @@ impl<'t, 'a> IoGen<'t, 'a> {
                 2 => "x".repeat(100 + self.t.pick(200)),
                 3 => self.t.choose(&["ünï çödé", "日本語", "🎸 rock", "tab\there", "  spaced  ", "\"quoted\""]).to_string(),
                 _ => format!("line{}", i),
+            };
+            // one line in 25 starts or ends with a character a reader might be tempted to treat specially: a byte-order
+            // mark, a zero-width space, NUL, control-Z, a line or paragraph separator, a next-line character
+            let line = if self.t.chance(1, 25) {
+                let odd = *self.t.choose(&["\u{feff}", "\u{200b}", "\0", "\u{1a}", "\u{2028}", "\u{2029}", "\u{85}", "\u{fffe}", "\u{c}", "\u{b}"]);
+                if self.t.chance(2, 3) {
+                    format!("{}{}", odd, line)
+                } else {
+                    format!("{}{}", line, odd)
+                }
+            } else {
+                line
             };
             // no line break inside a line, no CR directly in front of the terminator
             let line = line.replace('\n', " ");
